@@ -6,8 +6,54 @@
  */
 #ifndef VF_STUBS_RADIUS_H
 #define VF_STUBS_RADIUS_H
+#if !defined(VF_RAD_BUILD_STUBS) && !defined(VF_RAD_LIBC_LOOP)
 #include "stubs/dns.h"
+#endif
+#if defined(VF_RAD_LIBC_LOOP) && !defined(VF_REPLAY)
+/* defining byte loops of memcpy / memset (MD5-chain jobs: the context save/restore copies and
+ * the <= 128-byte password copies must be byte-exact; unwound with --unwindset) */
+#include <string.h>
+#include <stdint.h>
+void *memcpy(void *dst, const void *src, size_t n) {
+	size_t i;
+	__CPROVER_precondition(n == 0 || (__CPROVER_w_ok(dst, n) && __CPROVER_r_ok(src, n)), "memcpy: both spans inside their objects");
+	for (i = 0; i < n; i ++)
+		((uint8_t *)dst)[i] = ((const uint8_t *)src)[i];
+	return (dst);
+}
+void *memset(void *dst, int c, size_t n) {
+	size_t i;
+	__CPROVER_precondition(n == 0 || __CPROVER_w_ok(dst, n), "memset: span inside its object");
+	for (i = 0; i < n; i ++)
+		((uint8_t *)dst)[i] = (uint8_t)c;
+	return (dst);
+}
+#endif
 #ifndef VF_REPLAY
+#ifdef VF_RAD_BUILD_STUBS
+/* construction side (C15): memcpy / memset with exact frame and content observed at the ghost
+ * indices of contracts/radius.h part 2 (vf_rad_k: copied bytes, vf_rad_z: zero padding) */
+#include <string.h>
+#include <stdint.h>
+extern size_t vf_rad_k, vf_rad_z;
+void *memcpy(void *dst, const void *src, size_t n)
+__CPROVER_requires(n == 0 || (__CPROVER_w_ok(dst, n) && __CPROVER_r_ok(src, n) &&
+    !__CPROVER_same_object(dst, src)))
+__CPROVER_assigns(n != 0: __CPROVER_object_upto(dst, n))
+__CPROVER_ensures(__CPROVER_return_value == dst)
+__CPROVER_ensures(vf_rad_k < n ==> ((const uint8_t *)dst)[vf_rad_k] == ((const uint8_t *)src)[vf_rad_k])
+;
+/* memset as a body (a contract on memset trips a goto-instrument linking invariant in 6.11):
+ * exactly dst[0..n) is havocked, then constrained at the ghost index */
+void *memset(void *dst, int c, size_t n) {
+	__CPROVER_precondition(n == 0 || __CPROVER_w_ok(dst, n), "memset: span inside its object");
+	if (n != 0) {
+		__CPROVER_havoc_slice(dst, n);
+		__CPROVER_assume(vf_rad_z >= n || ((const uint8_t *)dst)[vf_rad_z] == (uint8_t)c);
+	}
+	return (dst);
+}
+#endif
 #include <string.h>
 
 size_t strnlen(const char *s, size_t n)
